@@ -163,22 +163,59 @@ SPEC = {
     "finding_key": finding_key,
     "shrink": shrink,
     "search": search,
-    "rule": "programs = type-directed generated sources using every declaration kind (enum, struct with method, static/"
+    "rule": "C04.fix: programs = type-directed generated sources using every declaration kind (enum, struct with method, static/"
             "groupshared globals, cbuffer with register, resources of 16 object types with register/space annotations and "
             "bind-group attributes, arrays, function template, namespace, overloads, default / out / inout parameters, every "
-            "statement form, casts, swizzles, intrinsics) + resource/pipeline programs + the repository's inputs under tests/; "
-            "each compiled for DirectX in no-pipeline mode and the emitted text compiled again; the second generation must be "
-            "accepted, byte-identical and keep every binding slot; non-trivial = the source was accepted",
-    "level_text": "Proof by composition, partial: the slot-stability leg is proved here over the C06 allocator model (re-running "
-                  "the allocator on the sequence with explicit groups reproduces every binding and inline block, for all "
-                  "sequences); the other legs are the property theorems of C09 (print/parse round trip), C10 (literals re-read "
-                  "exactly), C15 (unique unreserved names are kept) in their own modules. The composition itself (export "
-                  "preserves declaration order/kinds, re-elaboration adds no conversions) is not a theorem: it is exercised by "
-                  "the literal fixpoint run on generated programs and the repository corpus.",
+            "statement form, casts, swizzles, intrinsics) + resource/pipeline programs + the literal stream (numeric literals of "
+            "every suffix: 20-30 digit decimals, shortest 15-17 digit doubles, over-long expansions, exponent forms, subnormal / huge "
+            "magnitudes, -0.0, integer limits, hex; as global / local initialisers, call arguments, operands and array sizes) + the "
+            "repository's inputs under tests/; each compiled for DirectX in no-pipeline mode and the emitted text compiled again; "
+            "the second generation must be accepted, byte-identical and keep every binding slot. C04.reelab: scalar programs of "
+            "C01's generator + fixed sources; real first IR -> real emitted text -> real front end again; the model predicts the "
+            "skeleton (constant kinds, casts, operators, call targets, names) of every expression position of the second IR; oracle = "
+            "accepted and byte-identical second text; non-trivial = the source was accepted",
+    "level_text": "Proof by composition, machine-checked for expressions. (1) reelab_no_new_casts: for every expression of the C03 "
+                  "elaboration model (all operators, ?:, comma, casts, calls through overload resolution; scalar / vector / matrix / "
+                  "modified types; induction over all source expressions, debug and release builds) every syntax tree the front end "
+                  "can read from the export of the elaborated expression (Unelab: generate_expression node by node - typed Int32 "
+                  "constants lose their kind, negative constants become minus applied to the magnitude, casts to literal types are "
+                  "dropped, every function has a name of its own) elaborates to the same IR again: no conversion added or lost, same "
+                  "overload, same literal kinds; also for expression statements, return and initialised definitions; idempotent from "
+                  "the first generation on. Where it is false the negation is proved with a witness and replayed: a Cast passed for an "
+                  "out / inout parameter (T <-> T1) makes the emitted text rejected (known finding). (2) bridge_square: the exporter "
+                  "model of C01 (GenHlsl.genExpr, tied by C01's correspondence) read back by the front end (parse_literal, name lookup) "
+                  "is such a tree. (3) fixpoint_expr / fixpoint_expr_text: composition of (1), (2), the C09 round trip "
+                  "(roundtrip_expr_partial, for cast-free trees) and injectivity of skeleton + constants: the second generation of an "
+                  "expression of the scalar subset is the first and prints the same text; named hypotheses: name hygiene (C15), literal "
+                  "exactness (C10); leaf_value_preserved discharges the latter at the level of constants (every printable constant incl. "
+                  "i32::MIN gets its value back through generate_literal, parse_literal, sign folding, re-tagging). (4) "
+                  "slots_stable_reread: the allocator re-run (default group 0) on the declarations whose bind group is re-read character "
+                  "by character from the printed register(..) annotations (C05's reader) reproduces every group, index, register class "
+                  "and inline block, for all declaration sequences. The legs' property theorems (C10 literals, C09 round trip, C15 "
+                  "names) and their Gen tables are obligations of C04. Partial: structural statements, declarations, structs, "
+                  "templates, intrinsic calls and the text leg of trees with casts are not in a Lean composition theorem; they are "
+                  "exercised by the whole-program fixpoint run and the re-elaboration stream.",
     "trusted_base": [
-        "Lean 4.33 kernel; axioms propext / Classical.choice / Quot.sound only",
-        "Model/Slots.lean (tied to the code by C06's correspondence) and Gen.SlotTables",
-        "the composition of stage theorems into the whole-program fixpoint is argued in DESIGN.md, not machine-checked",
+        "Lean 4.33 kernel; axioms propext / Classical.choice / Quot.sound only (audited by #print axioms)",
+        "Model/Elab.lean, Conv.lean, Overload.lean, IrTyping.lean (C03 / C16 models, tied to the code by their correspondence runs) "
+        "and Gen.RankTable / Gen.TypingTables",
+        "Model/GenHlsl.lean (C01 exporter model, tied by C01's correspondence) and Gen.HlslGenTables; Model/Format.lean, Parse.lean "
+        "(C09), Model/Slots.lean, Meta.lean, Spec/Meta.lean (C06 / C05)",
+        "Model/Fixpoint.lean: Unelab / unelab (the exporter on the C03 expression type; proved equal to the C01 exporter model read "
+        "back by the front end on the scalar subset: bridge_square), rereadTable, litTyped, opSyn - compared with the re-extracted "
+        "tables Gen.FixpointTables / HlslGenTables by theorems on every run",
+        "Model/FixpointBridge.lean: erase (abstraction map between the two IR models, not a mirror of code), readBack (what "
+        "parse_expr_internal does with each syntax node before typing), rereadConst / negConst / retagTo (payloads; tied by "
+        "reread_payloads_as_modelled and by the value-level byte comparison of the correspondence runs)",
+        "tools/gens/c04.py (FixpointTables: parse_literal, the to_literal test of the Cast arm, the literal shortcut of apply)",
+        "the C04.reelab correspondence run: the model's prediction of the second-generation IR skeleton vs the real front end on the "
+        "real emitted text",
     ],
-    "assumptions": ["Rust's shortest round-trip float formatting and correctly rounded parsing (f64 Display / FromStr)"],
+    "assumptions": [
+        "Rust's shortest round-trip float formatting and correctly rounded parsing (f64 Display / FromStr)",
+        "name hygiene (C15 verbatim / never_reserved / injective_per_scope) enters fixpoint_expr as the hypotheses NamesAgree and "
+        "Renamed; literal exactness (C10) as the hypothesis that the second generation's constants are the first's",
+        "the print / parse round trip of exported trees that contain casts is assumed (ParsesBack): C09's model has no cast node",
+        "in the second generation no pipeline is selected (default bind group 0), as in the property's observation point",
+    ],
 }
